@@ -269,7 +269,7 @@ func (c *corpus) inputClean(r *rng, maxLen int) scn.Input {
 	return in
 }
 
-// bigClean composes a large well-formed input (60-120 kB): the body of a
+// bigClean composes a large well-formed input (50-90 kB): the body of a
 // well-formed file that is PHP code throughout, repeated.
 func (c *corpus) bigClean(r *rng) scn.Input {
 	var cands []corpusFile
@@ -284,7 +284,7 @@ func (c *corpus) bigClean(r *rng) scn.Input {
 	f := cands[r.n(len(cands))]
 	body := f.src[5:]
 	src := []byte("<?php")
-	for want := 60000 + r.n(60000); len(src) < want; {
+	for want := 50000 + r.n(40000); len(src) < want; {
 		src = append(append(src, body...), '\n')
 	}
 	return scn.Input{Name: f.name + "[repeated]", Src: src, Callback: true}
@@ -430,7 +430,7 @@ func genC11CLI(c *corpus, r *rng, seed uint64) *scn.Scenario {
 	// program was sized for, and one slow file overtaken by all the others
 	many := len(c.clean) > 0 && ((deep && r.chance(6)) || (!deep && r.chance(1)))
 	if many {
-		nf, clean, split, theme = 1030+r.n(400), true, false, ""
+		nf, clean, split, theme = 1030+r.n(150), true, false, ""
 		s.Theme = "many-files"
 	}
 	for i := 0; i < nf; i++ {
